@@ -1,4 +1,4 @@
-"""MANIFEST.setup_cmd: make sure hypothesis is importable by /venv/bin/python (offline)."""
+"""MANIFEST.setup_cmd: make sure hypothesis and atheris are importable by /venv/bin/python (offline)."""
 import os
 import subprocess
 import sys
@@ -13,7 +13,7 @@ def have(mod):
     return r.returncode == 0
 
 
-for mod, pkg in (("hypothesis", "hypothesis"),):
+for mod, pkg in (("hypothesis", "hypothesis"), ("atheris", "atheris")):
     if not have(mod):
         os.makedirs(DEPS, exist_ok=True)
         subprocess.check_call([sys.executable, "-m", "pip", "install", "--no-index", "--find-links",
